@@ -130,6 +130,7 @@ func RunCheck(o CheckOpts) int {
 			}
 		}
 	}
+	genS := time.Since(t0).Seconds()
 	tsec := 10
 	if o.Tier == "thorough" {
 		tsec = 60
@@ -270,8 +271,13 @@ func RunCheck(o CheckOpts) int {
 	for _, l := range lines {
 		fmt.Println(l)
 	}
-	fmt.Printf("property=%s tier=%s functions=%d obligations=%d discharged=%d violations=%d wall=%.1fs\n", o.Prop, o.Tier, len(fns), total, discharged, violations, time.Since(t0).Seconds())
+	fmt.Printf("property=%s tier=%s functions=%d obligations=%d discharged=%d violations=%d wall=%.1fs (vcgen %.1fs)\n", o.Prop, o.Tier, len(fns), total, discharged, violations, time.Since(t0).Seconds(), genS)
 	if o.Verbose {
+		for _, ob := range obs {
+			if ob.WallMs > 1500 {
+				fmt.Printf("  slow %dms %s %v\n", ob.WallMs, ob.Name, ob.Res.All)
+			}
+		}
 		for _, r := range results {
 			fmt.Printf("  %-8s %-70s %s %dms x%d  %s\n", r.Status, r.Name, r.Solver, r.Ms, r.Paths, r.Pos)
 			if r.Status != "unsat" {
